@@ -39,7 +39,7 @@ def startup_cases(tier):
     its = (0, 1, 2)
     problems = [dict(geom=0, prob=2, alpha=1, beta=0), dict(geom=1, prob=0, alpha=2, beta=1), dict(geom=2, prob=2, alpha=3, beta=1, dirbc=1)]
     k = 0
-    for (L, shape), fc, fi, extr, strat in itertools.product(shapes, (0, 1, 2), its, (0, 1), (0, 1)):
+    for (L, shape), fc, fi, extr, strat in itertools.product(shapes, (0, 1, 2), its, (0, 1, 3), (0, 1)):
         pb = problems[k % len(problems)]
         k += 1
         cfg = c01.base(extr=extr, strat=strat, **pb)
@@ -121,7 +121,7 @@ def main(tier):
         "rule": "part 1: FMG interpolation extracted on every coarse unit vector for every grid pair of the C08 lattice; every "
                 "row judged for coarse-value copy, constants, support <= 4x4, tensor-cubic exactness (interior) resp. cubic in "
                 "theta / linear in r (next to the boundaries).  part 2: levels L in {2,3,4(,5)} x FMG cycle {V,W,F} x FMG "
-                "iterations {0,1,2} x extrapolation {none, implicit} x strategy, maxIterations = 0, each over 5 object "
+                "iterations {0,1,2} x extrapolation {none, implicit, combined} x strategy, maxIterations = 0, each over 5 object "
                 "histories (fresh; after another configuration; dirty work vectors; second solve without setup; after a solve "
                 "with iterations) - a state is (config, history), a transition one setup()/solve() call",
         "samples": [c01.short(sc[0]), c01.short(sc[-1])],
